@@ -64,16 +64,16 @@ class Check:
                 fid = f.get("id", f.get("key", "?"))
                 self.known_seen[fid] = self.known_seen.get(fid, 0) + 1
                 return False
+        if len(self.violations) >= 100:       # enough replays on disk; keep counting
+            self.violations.append((key, clause, self.violations[-1][2]))
+            return True
         os.makedirs(REPLAY_DIR, exist_ok=True)
         h = hashlib.sha1(key.encode("utf-8", "surrogateescape")).hexdigest()[:12]
         path = os.path.join(REPLAY_DIR, "%s-%s.json" % (self.pid, h))
         with open(path, "w") as fp:
             json.dump({"property": self.pid, "key": key, "clause": clause, "case": case, "detail": detail or {}},
                       fp, indent=1, default=repr)
-        if len(self.violations) < 200:
-            self.violations.append((key, clause, path))
-        else:
-            self.violations.append((key, clause, path))
+        self.violations.append((key, clause, path))
         return True
 
     def model_violation(self, module: str, names: list, out_tail: str):
